@@ -22,6 +22,8 @@ shows the order difference on the real code under different PYTHONHASHSEED value
 import GeckoModel.Proofs.InventoryLemmas
 import GeckoModel.Generated.PacksIndex
 
+import GeckoModel.Model.Coop
+import GeckoModel.Generated.Skeletons
 namespace GeckoModel.C12
 open GeckoModel GeckoModel.Generated GeckoModel.Inventory GeckoModel.InventoryLemmas
 
@@ -429,5 +431,19 @@ theorem rescans_are_idempotent (fresh : Inv) (n : Nat) : scans syncScanUpdates f
 /-- non-vacuity: a scan that APPENDS to the sensor list doubles it on the second scan -/
 example : (scans [("actual_user_devices", true), ("_pumps", true), ("_blowers", true), ("_lights", true), ("_sensors", false), ("_binary_sensors", true)]
             { emptyInv with sensors := [⟨"K", "k", "t"⟩] } 1).sensors.length = 2 := by decide
+
+/-! ### the blocking client's session glue -/
+
+/-- **every connection of the blocking client gets declaration objects of its own** (over the regenerated skeleton of
+`GeckoSpa._on_config_received`): on every path that ends normally the pack, the config and the log declaration classes are each
+INSTANTIATED (once each, in this order, over this connection's structure) before the full block is requested - none is looked up in
+something that outlives the connection (rounds 14 and 15: declaration objects kept per process read another connection's block) -/
+theorem blocking_declarations_are_made_for_each_connection :
+    Coop.everyNormalEndDid (fun a => a.kind == .call && a.name == "GeckoPack") Skeletons.sk_spa__GeckoSpa__on_config_received = true ∧
+    Coop.everyNormalEndDid (fun a => a.kind == .call && a.name == "GeckoConfigStruct") Skeletons.sk_spa__GeckoSpa__on_config_received = true ∧
+    Coop.everyNormalEndDid (fun a => a.kind == .call && a.name == "GeckoLogStruct") Skeletons.sk_spa__GeckoSpa__on_config_received = true ∧
+    Coop.everyNormalEndDid (fun a => a.kind == .call && a.name == "self.struct.retry_request") Skeletons.sk_spa__GeckoSpa__on_config_received = true ∧
+    ((Coop.actions .call Skeletons.sk_spa__GeckoSpa__on_config_received).filter fun n => n == "GeckoPack" || n == "GeckoConfigStruct" || n == "GeckoLogStruct") =
+      ["GeckoPack", "GeckoConfigStruct", "GeckoLogStruct"] := by decide +kernel
 
 end GeckoModel.C12
